@@ -10,7 +10,7 @@ import torch
 from ..common import Rng, Report, budget, ckey
 from ..registry import SPECS, Spec, fresh_cfg, public_cfg, new_metric
 from ..engine import observe, same_obs, obs_json, snapshot, snap_equal
-from ..hist import f64_ops, random_ops, apply_op, describe_ops, same_step
+from ..hist import f64_ops, grad_ops, random_ops, apply_op, describe_ops, same_step
 from ..translators import states as states_tr
 from torcheval.metrics.toolkit import clone_metric
 
@@ -114,9 +114,13 @@ def one(rep: Report, rng: Rng, spec: Spec, cfg0: dict, all_prefixes: bool):
     ops = random_ops(rng, spec, cfg, rng.randint(1, 7 if not win else 2 * win + 2))
     cont = random_ops(rng, spec, cfg, rng.randint(2, 4) if not win else 2 * win + 2, allow_reset=False) + [("o",)]
     # dtype variants: states whose dtype follows the data must survive a restore with their dtype AND value
-    dmode = rng.choice(["f32", "f32", "f64", "f64-history-only"])
+    dmode = rng.choice(["f32", "f32", "f64", "f64-history-only", "grad"])
     rep.count(f"dtype-mode:{dmode}")
-    if dmode != "f32":
+    if dmode == "grad":
+        # arguments still attached to an autograd graph (non-leaf, requires_grad): same values, but a metric that keeps the
+        # tensor itself cannot be deep-copied / cloned (and keeps the graph alive)
+        ops = grad_ops(ops)
+    elif dmode != "f32":
         ops = f64_ops(ops)
         if dmode == "f64":
             cont = f64_ops(cont, salt=2)
